@@ -61,6 +61,23 @@ SITES = {
                   '/other/q': {'links': ['/dir/zz']},
                   '/up': {'links': []},
                   '/dir/zz': {'links': []}}), ['http://a.test/dir/index.html']),
+    # a frame outside the start directory (allowed as a page requisite) whose links point back
+    # into the directory, to itself and further away; and a first mention out of scope (an
+    # <a> to /other/w.html) followed by an in-scope mention of the same URL (as a frame)
+    'frameout': (S({'/dir/index.html': {'frames': ['/other/frame.html'],
+                                        'links': ['/dir/a.html', '/other/w.html']},
+                    '/other/frame.html': {'links': ['/dir/back.html', '/other/far.html',
+                                                    '/dir/a.html'],
+                                          'reqs': ['/other/pix.png']},
+                    '/dir/back.html': {'links': ['/dir/index.html'],
+                                       'frames': ['/other/w.html']},
+                    '/dir/a.html': {'links': []},
+                    '/other/w.html': {'links': ['/dir/fromw.html']},
+                    '/dir/fromw.html': {'links': []},
+                    '/other/far.html': {'links': ['/dir/never.html']},
+                    '/dir/never.html': {'links': []},
+                    '/other/pix.png': {'body': 'PNG', 'ctype': 'image/png'}}),
+                 ['http://a.test/dir/index.html']),
     'depth': (S({'/': {'links': ['/1', '/2']},
                  '/1': {'links': ['/2', '/3']},
                  '/2': {'links': ['/3']},
@@ -97,6 +114,8 @@ OPTSETS = {
     # something other than a failed fetch raises a try count (C03: a kill is not a try)
     'r-t1': (['-r', '--tries', '1'], dict(recursive=True)),
     'r-np': (['-r', '--no-parent'], dict(recursive=True, no_parent=True)),
+    'r-p-np': (['-r', '-p', '--no-parent'], dict(recursive=True, page_requisites=True,
+                                                 no_parent=True)),
     'r-acc': (['-r', '--accept-regex', r'test/($|a|b|1|2|dir/|p|u|r1|m)'],
               dict(recursive=True, accept_regex=r'test/($|a|b|1|2|dir/|p|u|r1|m)')),
     'r-rej': (['-r', '--reject-regex', r'/(c|t|2|k\.png|sub/)'],
@@ -327,6 +346,7 @@ def jobs(tier, seed):
         'reqs': ['r-p', 'p', 'r', 'r-p-l1', 'r-rej'],
         'twohost': ['r', 'r-p'],
         'parent': ['r-np', 'r'],
+        'frameout': ['r-p-np', 'r-p'],
         'depth': ['r', 'r-l1', 'r-l2', 'r-rej', 'r-acc'],
         'twostart': ['r', 'none'],
     }
